@@ -1287,6 +1287,15 @@ private:
 
   bool doAddListener(const ListenerCfg &lc)
   {
+    // Refuse a TLS listener when no server TLS context exists (serverTls not
+    // enabled/configured): onListener would otherwise accept its connections as
+    // PLAINTEXT sessions — a silent downgrade of an explicit TLS request.
+    if (lc.tls == TlsMode::Server && !_sslSrv)
+    {
+      err(TransportError::Config, "TLS listener requested but server TLS is not configured");
+      return false;
+    }
+
     int sfd = -1;
     sockaddr_storage ss{};
     socklen_t sl = 0;
@@ -1452,6 +1461,21 @@ private:
 
   bool doConnect(const ConnectReq &cr)
   {
+    // Refuse a TLS connect when no client TLS context exists (clientTls not
+    // enabled/configured) instead of silently creating a PLAINTEXT session: the
+    // caller asked for TLS and would send its data in the clear. Reported like
+    // the other pre-insertion failures below (onClose for the sid already
+    // returned by connect()).
+    if (cr.tls == TlsMode::Client && !_sslCli)
+    {
+      const std::string msg = "TLS connect requested but client TLS is not configured";
+      decltype(_cbs.onClose) closeCb;
+      { std::lock_guard<std::mutex> g(_cbMutex); closeCb = _cbs.onClose; }
+      if (closeCb) closeCb(cr.sid, TransportErrorInfo{TransportError::Config, msg});
+      err(TransportError::Config, msg);
+      return false;
+    }
+
     addrinfo hints{};
     hints.ai_family = AF_UNSPEC;
     hints.ai_socktype = SOCK_STREAM;
